@@ -576,6 +576,25 @@ def mdOK [DecidableEq α] (c : Utf8) (ids : List Id) (md : Option (List (MdE α)
              | none => false
              | some rs => allRep c (colOf (e0 :: es) k) rs))
 
+/-- group metadata: every entry of the table has its dataset, a single text holding the payload, whose
+`data_type` attribute is the entry's data type ('' for an entry the table holds as bare text); nothing else -/
+def gmdOK (c : Utf8) (g : List (String × String × String)) (grp : Option (AxGrp α)) : Bool :=
+  match grp with
+  | none => false
+  | some ag =>
+    match ag.gmd with
+    | none => false
+    | some ds =>
+      ds.length == g.length &&
+      g.all (fun kv =>
+        match ds.lookup kv.1 with
+        | none => false
+        | some d =>
+          (d.kind == .vlenStr || d.kind == .fixStr) && d.dataType == some kv.2.1 &&
+          (match d.data with
+           | .d1 [.s x] => okEq (c.dec x) kv.2.2
+           | _ => false))
+
 /-- one matrix group: kinds, lengths, offsets, index range, no duplicate index, no stored zero -/
 def viewOK [Zero α] [DecidableEq α] (major minor nnz : Nat) (g : Option (AxGrp α)) : Bool :=
   match g with
@@ -603,6 +622,8 @@ def clauses [Zero α] [DecidableEq α] (c : Utf8) (t : Src α) (genBy : String) 
    ("sample/ids", idsOK c t.samp h.samp),
    ("observation/metadata", mdOK c t.obs t.omd h.obs),
    ("sample/metadata", mdOK c t.samp t.smd h.samp),
+   ("observation/group-metadata", gmdOK c (gmdAll t.ogmd t.ogmdBare) h.obs),
+   ("sample/group-metadata", gmdOK c (gmdAll t.sgmd t.sgmdBare) h.samp),
    ("observation/matrix", viewOK n m z h.obs),
    ("sample/matrix", viewOK m n z h.samp),
    ("decode", decodeOK c t h)]
